@@ -163,18 +163,18 @@ func (m *tmModel) expired(t, now time.Time) bool { return !t.Add(m.tp).After(now
 // ---------------------------------------------------------------------------------------------
 
 type tmWorld struct {
-	rec     *kernel.Rec
-	cfg     map[string]int64
-	now     time.Time
-	host    *node.Chain
-	gov     *node.Account
-	relayer *node.Account
-	outsider *node.Account
-	stub    *tmStub
-	m       *tmModel
-	r       *rand.Rand
-	name    string
-	pending []*tmUpdate
+	rec       *kernel.Rec
+	cfg       map[string]int64
+	now       time.Time
+	host      *node.Chain
+	gov       *node.Account
+	relayer   *node.Account
+	outsider  *node.Account
+	stub      *tmStub
+	m         *tmModel
+	r         *rand.Rand
+	name      string
+	pending   []*tmUpdate
 	crashNext int
 }
 
@@ -183,16 +183,16 @@ type tmUpdate struct {
 	desc     string
 	mutation string
 	// reference verdict, computed when the message is built except for the time/state dependent parts
-	h, t           uint64
-	hdrTime        time.Time
-	appHash, nextH []byte
-	valsHash       []byte
+	h, t            uint64
+	hdrTime         time.Time
+	appHash, nextH  []byte
+	valsHash        []byte
 	trustedValsHash []byte
-	chainOK        bool
-	structOK       bool // commit refers to this header, valset matches header hash, revision ok
-	ownNum, ownDen int64 // valid-signature power of the header's own set / total
-	trNum, trDen   int64 // valid-signature power counted in the supplied trusted set / total of that set
-	signer         *node.Account
+	chainOK         bool
+	structOK        bool  // commit refers to this header, valset matches header hash, revision ok
+	ownNum, ownDen  int64 // valid-signature power of the header's own set / total
+	trNum, trDen    int64 // valid-signature power counted in the supplied trusted set / total of that set
+	signer          *node.Account
 }
 
 // TMScenario: Tendermint light-client world (C07; also C13/C19 store read-back at special heights, C15).
@@ -206,13 +206,13 @@ var tmMutations = []string{"none", "none", "none", "time_future", "time_past", "
 
 func (TMScenario) Generate(rng *rand.Rand, focus, tier string) kernel.Plan {
 	cfg := map[string]int64{
-		"keyseed":  rng.Int63(),
-		"vals":     1 + rng.Int63n(7),
-		"tp_min":   []int64{3, 30, 600, 20160, 20160}[rng.Intn(5)],
-		"trust_n":  []int64{1, 1, 2, 1, 3}[rng.Intn(5)],
-		"rev47":    kernel.B2I(kernel.Chance(rng, 0.2)),
-		"start_h":  []int64{1, 5, 40, 46, 300}[rng.Intn(5)],
-		"special":  kernel.B2I(focus == "C13" || focus == "C19" || kernel.Chance(rng, 0.3)),
+		"keyseed": rng.Int63(),
+		"vals":    1 + rng.Int63n(7),
+		"tp_min":  []int64{3, 30, 600, 20160, 20160}[rng.Intn(5)],
+		"trust_n": []int64{1, 1, 2, 1, 3}[rng.Intn(5)],
+		"rev47":   kernel.B2I(kernel.Chance(rng, 0.2)),
+		"start_h": []int64{1, 5, 40, 46, 300}[rng.Intn(5)],
+		"special": kernel.B2I(focus == "C13" || focus == "C19" || kernel.Chance(rng, 0.3)),
 	}
 	cfg["trust_d"] = []int64{3, 3, 3, 2, 4}[cfg["trust_n"]%5]
 	if cfg["trust_n"] == 2 {
